@@ -1,6 +1,7 @@
 """E1: builder differential (harness/src/bin/bdiff.rs against coq/Model/{Layout,Builder,Observe}.v)."""
 import glob
 import json
+import random
 import os
 import re
 import shutil
@@ -130,8 +131,20 @@ def run_e1(tier, seed):
     res = {"tier": tier, "seed": seed, "diffs": [], "oracle": [], "stats": {}, "counts": {}, "cached": False}
     runs = [("corpus", ["--mode", "file", "--file", corpus_file(), "--shards", "1"]),
             ("coq_random", ["--mode", "random", "--seed", str(seed + 7919), "--count", str(pl["coq_random"]), "--shards", "16"]),
-            ("random", ["--mode", "random", "--seed", str(seed), "--count", str(pl["random"]), "--no-model"]),
+            ("random", ["--mode", "random", "--seed", str(seed), "--count", str(pl["random"]), "--no-model", "--wide", "40"]),
             ("enum", ["--mode", "enum", "--seed", str(seed), "--count", str(pl["enum"]), "--max-adds", str(pl["enum_max_adds"]), "--no-model"])]
+    # one huge history (more than a thousand live data in two consecutive variants: counts above any threshold of the
+    # replay / layout code), compared with the extracted model only (never evaluated inside Coq)
+    rng = random.Random(seed)
+    nh = 1100 + rng.randrange(60)
+    hh = ["A:%d:%d:%d:0:%d" % (i, sz, sz, i % 5) for i, sz in ((i, rng.choice([1, 2, 4, 4, 4, 8])) for i in range(nh))]
+    hh.append("C:%d" % rng.choice([0, 2]))
+    hh += ["R:%d" % i for i in rng.sample(range(nh), 6)]
+    hh += ["A:%d:4:4:0:1" % (5000 + i) for i in range(8)]
+    hh.append("C:2")
+    hugef = os.path.join(out, "huge.hist")
+    open(hugef, "w").write(" ".join(hh) + "\n")
+    runs.append(("huge", ["--mode", "file", "--file", hugef, "--shards", "1", "--no-model"]))
     samples = []
     for label, args in runs:
         d = os.path.join(out, label)
@@ -176,7 +189,7 @@ def search_e1(seed, count, props):
     d = os.path.join(CACHE, "run", "e1-search")
     shutil.rmtree(d, ignore_errors=True)
     found = []
-    for mode, args in (("random", ["--mode", "random", "--seed", str(seed + 104729), "--count", str(count)]),
+    for mode, args in (("random", ["--mode", "random", "--seed", str(seed + 104729), "--count", str(count), "--wide", "25"]),
                        ("enum", ["--mode", "enum", "--seed", "0", "--count", "0", "--max-adds", "2"])):
         _run_bdiff(args + ["--no-model"], d)
         found += [x for x in _oracle(d, "search/" + mode) if x["property"] in props]
